@@ -15,9 +15,12 @@ import itertools
 import random
 import traceback
 
-import pyglove as pg
-from pyglove.ext import evolution as evo
 from pgverif.monitors import sched as S
+# Before the library is imported: locks it creates at import time (module-level
+# locks) must be cooperative too, or a descheduled holder stalls the session.
+S.install_process_wide()
+import pyglove as pg  # pylint: disable=g-import-not-at-top,g-bad-import-order
+from pyglove.ext import evolution as evo  # pylint: disable=g-import-not-at-top
 
 TIERS = {
     'quick': dict(shards=8, cases=80, free_every=8, replay_every=20,
